@@ -451,9 +451,12 @@ class Runner:
         self._kill_issued = False
         self._kill_skipped = False
         self._timer_cancelled_early = False
-        # Per-run stdin codec state (the encoding may differ between runs)
+        # Per-run stdin state: the codec (the encoding may differ between
+        # runs) and the "we're done" signal for the stdin handler, which an
+        # earlier run on this object has left set
         self._stdin_decoder = None
         self._stdin_encoder = None
+        self.program_finished.clear()
         self.start(command, self.opts["shell"], self.env)
         # If disowned, we just stop here - no threads, no timer, no error
         # checking, nada.
